@@ -42,6 +42,12 @@ def gen_cases(scratch, tier, seed, path):
     for x in xs:
         cases.append(dict(id=len(cases) + 1, kind="tmpl", x=x, onto="base" if rnd.random() < 0.5 else "empty",
                           body="", resp="", nested=False, conflict="none", varfp=""))
+    # long templates around the lexer's token buffer (64): accepted or refused with an error, never a crash
+    for nseg in [20, 30, 31, 32, 33, 34, 40, 63, 64, 65, 100]:
+        for tail in [[], [":", "L"], ["/", "*"], ["/", "{", "s", "}"]]:
+            for onto in ("base", "empty"):
+                cases.append(dict(id=len(cases) + 1, kind="tmpl", x=["/", "L"] * nseg + tail, onto=onto, body="", resp="", nested=False,
+                                  conflict="none", varfp=""))
     for b, r, n, cfl, onto in itertools.product(BODY, RESP, [False, True], CONFLICT, ["base", "empty"]):
         if onto == "empty" and cfl not in ("none", "implicit"):
             continue
